@@ -49,6 +49,12 @@ def cases(tier, seed):
         jits = [True, False] if (tier == "thorough" or dev <= 1) else [True]
         out.append({"id": e1.fv_id(fv), "fv": fv, "jits": jits, "dev": dev, "seed": seed, "tier": tier})
         seen.add(e1.fv_id(fv))
+    # explicit size letters: more periods than any family option, a fine grid (sizes beyond the structural alphabet)
+    for extra in ({"T": 6}, {"T": 6, "filt": "grow"}, {"T": 6, "h": "ph"}, {"T": 7, "filt": "mix", "h": "hp"}, {"wgrid": "fine"}, {"wgrid": "fine", "k": "log", "T": 2}):
+        fv = family.normalise(dict(family.BASE, **extra))
+        if fv is not None and e1.fv_id(fv) not in seen:
+            seen.add(e1.fv_id(fv))
+            out.append({"id": e1.fv_id(fv), "fv": fv, "jits": [True], "dev": len(extra), "seed": seed, "tier": tier})
     if tier == "thorough":
         groups = [e1.family_members(3, {k: family.FEATURES[k] for k in PRONE})[0]]
         # Family_2 around two further bases (fully discrete; stochastic without filter)
